@@ -503,6 +503,20 @@ struct OverloadSys : StreamBase {
         ov.push_back(OvOp{"<< std::u32string_view (embedded NUL)", [](SS &s) { s << std::u32string_view(n32); }, ntxt});
         ov.push_back(OvOp{"<< std::u8string_view (embedded NUL)", [](SS &s) { s << std::u8string_view(n8); }, ntxt});
         ov.push_back(OvOp{"<< std::u16string (U+0000 alone)", [](SS &s) { s << std::u16string(1, u'\0'); }, std::string(1, '\0')});
+        // narrow text is appended byte for byte, whatever the bytes are (validation happens in to_string())
+        static const std::string badb[3] = {std::string("\xFF", 1), std::string("caf\xE9", 4), std::string("ok\xE2\x82", 4)};
+        for (int bi = 0; bi < 3; ++bi) {
+            const std::string &bb = badb[bi];
+            std::string tag = bi == 0 ? "FF" : bi == 1 ? "Latin-1 e-acute" : "truncated sequence";
+            ov.push_back(OvOp{"<< const char* (" + tag + ")", [&bb](SS &s) { s << bb.c_str(); }, bb});
+            ov.push_back(OvOp{"<< std::string (" + tag + ")", [&bb](SS &s) { s << bb; }, bb});
+            ov.push_back(OvOp{"<< std::string_view (" + tag + ")", [&bb](SS &s) { s << std::string_view(bb); }, bb});
+            ov.push_back(OvOp{"<< const char8_t* (" + tag + ")", [&bb](SS &s) { s << reinterpret_cast<const char8_t *>(bb.c_str()); }, bb});
+            ov.push_back(OvOp{"<< std::u8string (" + tag + ")", [&bb](SS &s) { s << std::u8string(reinterpret_cast<const char8_t *>(bb.data()), bb.size()); }, bb});
+            ov.push_back(OvOp{"<< std::u8string_view (" + tag + ")",
+                              [&bb](SS &s) { s << std::u8string_view(reinterpret_cast<const char8_t *>(bb.data()), bb.size()); }, bb});
+            ov.push_back(OvOp{"append(ptr,n) (" + tag + ")", [&bb](SS &s) { s.append(bb.data(), bb.size()); }, bb});
+        }
         ov.push_back(OvOp{"<< char 'x'", [](SS &s) { s << 'x'; }, "x"});
         ov.push_back(OvOp{"<< char NUL", [](SS &s) { s << '\0'; }, std::string(1, '\0')});
         ov.push_back(OvOp{"append(with embedded NUL, 3)", [](SS &s) { s.append("a\0b", 3); }, std::string("a\0b", 3)});
